@@ -2,36 +2,43 @@
 (***************************************************************************)
 (* Cluster routing over gossip (service/cluster/swarm.go, peer.go,          *)
 (* event/state.go, and the sending side of weaveworks/mesh: gossip.go,     *)
-(* gossip_channel.go).  INTENDED DESIGN: the gossip library's contract is  *)
-(* respected (coalescing two queued payloads yields their union and        *)
-(* mutates neither), and the routing table follows the activeness          *)
-(* transitions of the merged state.  Where the code is known to deviate    *)
-(* the deviation is a listed finding (known_findings.json), recognised in  *)
-(* a trace by the presence of a coalescing step.                           *)
+(* gossip_channel.go).  The gossip library's contract is respected:        *)
+(* coalescing two queued payloads yields their union and mutates neither   *)
+(* (since fix 2260ba7 the code does that too), and the routing table       *)
+(* follows the activeness transitions of the merged state.  The one place  *)
+(* where the code is known to deviate from the intended design - the       *)
+(* router's garbage collection and the return of a collected peer - is a   *)
+(* named switch (GcAsCode).                                                *)
 (*                                                                         *)
 (* Brokers form a full mesh.  Every broker has one client connection that  *)
 (* may hold a subscription on each ssid.  A key of the replicated state is *)
-(* <<owner broker, ssid>>; its value an LWW pair (a, d).                   *)
+(* <<owner broker, broker whose connection id it carries, ssid>>; a real   *)
+(* subscription has owner = connection owner (the other keys are only ever *)
+(* written by the code's garbage collection); its value an LWW pair (a, d).*)
 (* Per directed link: a broadcast bucket (payloads originated by the       *)
 (* sender), a gossip bucket (periodic full state, relayed deltas) and a    *)
 (* FIFO wire.  Pick takes the gossip bucket first (as mesh does).          *)
 (***************************************************************************)
 EXTENDS Naturals, Sequences, FiniteSets
 
-CONSTANTS Brokers, Ssids
+CONSTANTS Brokers, Ssids,
+          GcAsCode      \* FALSE = intended design; TRUE = what the code does (listed finding gc_peer_return, see PeerGC / Deliver)
 
 VARIABLES loc,      \* loc[b]: ssids the local client of b is subscribed to
           st,       \* st[b][k]: replicated state of b
           routes,   \* routes[b]: set of <<peer, ssid>> = remote entries of b's subscription trie
           bc, gs,   \* bc[b][n], gs[b][n]: queued payload (a partial state) or Nothing
+          up,       \* up[b][n]: the mesh connection between b and n is established (symmetric)
+          members,  \* members[b]: peers in b's member list (created by findPeer, removed by the router's GC callback)
           live,     \* live[b][n]: the gossip bucket of link b -> n refers to b's live state (Gossip() hands out the
                     \*   state object itself: what is sent is the state at pick time)
           wire,     \* wire[b][n]: sequence of [kind, p]
           now,      \* logical clock (every clock reading is later than all earlier ones)
           merged    \* observation: number of coalescing steps so far
-gvars == <<loc, st, routes, bc, gs, live, wire, now, merged>>
+gvars == <<loc, st, routes, bc, gs, up, members, live, wire, now, merged>>
 
-Keys    == Brokers \X Ssids
+Keys    == Brokers \X Brokers \X Ssids
+KeyOf(b, s) == <<b, b, s>>
 Zero    == [a |-> 0, d |-> 0]
 Nothing == [k \in Keys |-> Zero]
 Max(x, y) == IF x > y THEN x ELSE y
@@ -42,6 +49,7 @@ DeltaV(l, m) == [a |-> IF l.a < m.a THEN m.a ELSE 0, d |-> IF l.d < m.d THEN m.d
 Delta(l, m)  == [k \in Keys |-> DeltaV(l[k], m[k])]
 One(k, v) == [x \in Keys |-> IF x = k THEN v ELSE Zero]
 Others(b) == Brokers \ {b}
+Neigh(b)  == { n \in Brokers : n # b /\ up[b][n] }
 
 GInit ==
     /\ loc = [b \in Brokers |-> {}]
@@ -49,70 +57,120 @@ GInit ==
     /\ routes = [b \in Brokers |-> {}]
     /\ bc = [b \in Brokers |-> [n \in Brokers |-> Nothing]]
     /\ gs = [b \in Brokers |-> [n \in Brokers |-> Nothing]]
+    /\ up = [b \in Brokers |-> [n \in Brokers |-> b # n]]
+    /\ members = [b \in Brokers |-> {}]
     /\ live = [b \in Brokers |-> [n \in Brokers |-> FALSE]]
     /\ wire = [b \in Brokers |-> [n \in Brokers |-> <<>>]]
     /\ now = 1 /\ merged = 0
 
 (* how many links of b coalesce when p is queued on all of them *)
-Busy(b, bucket) == Cardinality({ n \in Others(b) : bucket[b][n] # Nothing })
+Busy(b, bucket) == Cardinality({ n \in Neigh(b) : bucket[b][n] # Nothing })
 
 (* a client subscribes / unsubscribes on its broker: Swarm.Notify = local Add/Del (first clock reading), then a
    one-entry payload with a second reading is broadcast: queued (coalesced = union) on every link *)
 Notify(b, s, on) ==
-    LET k  == <<b, s>>
+    LET k  == KeyOf(b, s)
         op == One(k, IF on THEN [a |-> now + 1, d |-> 0] ELSE [a |-> 0, d |-> now + 1])
     IN  /\ st' = [st EXCEPT ![b][k] = IF on THEN [@ EXCEPT !.a = now] ELSE [@ EXCEPT !.d = now]]
-        /\ bc' = [bc EXCEPT ![b] = [n \in Brokers |-> IF n = b THEN Nothing ELSE Join(@[n], op)]]
+        /\ bc' = [bc EXCEPT ![b] = [n \in Brokers |-> IF n \in Neigh(b) THEN Join(@[n], op) ELSE @[n]]]
         /\ merged' = merged + Busy(b, bc)
         /\ now' = now + 2
 ClientSub(b, s)   == /\ s \notin loc[b] /\ loc' = [loc EXCEPT ![b] = @ \cup {s}] /\ Notify(b, s, TRUE)
-                     /\ UNCHANGED <<routes, gs, live, wire>>
+                     /\ UNCHANGED <<routes, gs, up, members, live, wire>>
 ClientUnsub(b, s) == /\ s \in loc[b] /\ loc' = [loc EXCEPT ![b] = @ \ {s}] /\ Notify(b, s, FALSE)
-                     /\ UNCHANGED <<routes, gs, live, wire>>
+                     /\ UNCHANGED <<routes, gs, up, members, live, wire>>
 
 (* periodic gossip: the full state is queued on the gossip bucket of every link *)
 GsBusy(b, n) == gs[b][n] # Nothing \/ live[b][n]
+(* queue b's complete state on the gossip bucket of link b -> n.  An empty bucket then refers to the live state object
+   (what is sent is the state at pick time); a non-empty bucket is coalesced: the new pending payload is a fresh union
+   of what the bucket held and the state as it is now *)
+QueueFull(b, ns) ==
+    /\ gs' = [gs EXCEPT ![b] = [n \in Brokers |-> IF n \in ns /\ GsBusy(b, n) THEN Join(@[n], st[b]) ELSE @[n]]]
+    /\ live' = [live EXCEPT ![b] = [n \in Brokers |-> IF n \in ns THEN ~GsBusy(b, n) ELSE @[n]]]
 Periodic(b) ==
-    /\ live' = [live EXCEPT ![b] = [n \in Brokers |-> n # b]]
-    /\ merged' = merged + Cardinality({ n \in Others(b) : GsBusy(b, n) })
-    /\ UNCHANGED <<loc, st, routes, bc, gs, wire, now>>
+    /\ QueueFull(b, Neigh(b))
+    /\ merged' = merged + Cardinality({ n \in Neigh(b) : GsBusy(b, n) })
+    /\ UNCHANGED <<loc, st, routes, bc, up, members, wire, now>>
 
 (* the sender goroutine of link b -> n: gossip bucket first, else the broadcast bucket; encode onto the wire *)
 Pick(b, n) ==
-    /\ b # n /\ (GsBusy(b, n) \/ bc[b][n] # Nothing)
+    /\ b # n /\ up[b][n] /\ (GsBusy(b, n) \/ bc[b][n] # Nothing)
     /\ IF GsBusy(b, n)
        THEN /\ wire' = [wire EXCEPT ![b][n] = Append(@, [kind |-> "gossip", p |-> Join(gs[b][n], IF live[b][n] THEN st[b] ELSE Nothing)])]
             /\ gs' = [gs EXCEPT ![b][n] = Nothing] /\ live' = [live EXCEPT ![b][n] = FALSE] /\ UNCHANGED bc
        ELSE /\ wire' = [wire EXCEPT ![b][n] = Append(@, [kind |-> "broadcast", p |-> bc[b][n]])]
             /\ bc' = [bc EXCEPT ![b][n] = Nothing] /\ UNCHANGED <<gs, live>>
-    /\ UNCHANGED <<loc, st, routes, now, merged>>
+    /\ UNCHANGED <<loc, st, routes, up, members, now, merged>>
 
 (* the routing table follows the activeness of the merged state: remote peer q is in the trie for ssid s iff q's
    subscription on s is active in the replica *)
-RoutesOf(b, state) == { <<k[1], k[2]>> : k \in { x \in Keys : x[1] # b /\ IsAdded(state[x]) } }
+RoutesOf(b, state, mem) == { <<k[1], k[3]>> : k \in { x \in Keys : x[1] # b /\ x[1] \in mem /\ IsAdded(state[x]) } }
+(* owners of the entries a payload changed: Swarm.merge calls findPeer for each of them (the peer is created if needed) *)
+OwnersIn(dl, n) == { k[1] : k \in { x \in Keys : dl[x] # Zero /\ x[1] # n } }
 
 (* receive the head of wire b -> n: Swarm.merge; a gossip payload's delta is relayed to the other neighbours *)
 Deliver(b, n) ==
-    /\ b # n /\ wire[b][n] # <<>>
+    /\ b # n /\ up[b][n] /\ wire[b][n] # <<>>
     /\ LET m  == Head(wire[b][n])
            dl == Delta(st[n], m.p)
            s2 == Join(st[n], m.p)
+           m2 == members[n] \cup OwnersIn(dl, n) \cup (IF GcAsCode THEN {} ELSE {b})   \* INTENDED: hearing from a peer brings it back; the code only looks at the owners of changed entries
        IN  /\ st' = [st EXCEPT ![n] = s2]
-           /\ routes' = [routes EXCEPT ![n] = RoutesOf(n, s2)]
+           /\ members' = [members EXCEPT ![n] = m2]
+           /\ routes' = [routes EXCEPT ![n] = RoutesOf(n, s2, m2)]
            /\ wire' = [wire EXCEPT ![b][n] = Tail(@)]
            /\ IF m.kind = "gossip" /\ dl # Nothing
-              THEN /\ gs' = [gs EXCEPT ![n] = [x \in Brokers |-> IF x \in {n, b} THEN @[x] ELSE Join(@[x], dl)]]
-                   /\ merged' = merged + Cardinality({ x \in Brokers \ {n, b} : GsBusy(n, x) })
-              ELSE UNCHANGED <<gs, merged>>
-    /\ UNCHANGED <<loc, bc, live, now>>
+              THEN /\ gs' = [gs EXCEPT ![n] = [x \in Brokers |-> IF x \in Neigh(n) \ {b}
+                                                                   THEN Join(Join(@[x], IF live[n][x] THEN s2 ELSE Nothing), dl) ELSE @[x]]]
+                   /\ live' = [live EXCEPT ![n] = [x \in Brokers |-> IF x \in Neigh(n) \ {b} THEN FALSE ELSE @[x]]]
+                   /\ merged' = merged + Cardinality({ x \in Neigh(n) \ {b} : GsBusy(n, x) })
+              ELSE UNCHANGED <<gs, live, merged>>
+    /\ UNCHANGED <<loc, bc, up, now>>
 
-GNext == \/ \E b \in Brokers, s \in Ssids : ClientSub(b, s) \/ ClientUnsub(b, s)
+(* the connection between b and n breaks: whatever was queued or in flight between them is lost *)
+LinkDown(b, n) ==
+    /\ b # n /\ up[b][n]
+    /\ up' = [up EXCEPT ![b][n] = FALSE, ![n][b] = FALSE]
+    /\ bc' = [bc EXCEPT ![b][n] = Nothing, ![n][b] = Nothing]
+    /\ gs' = [gs EXCEPT ![b][n] = Nothing, ![n][b] = Nothing]
+    /\ live' = [live EXCEPT ![b][n] = FALSE, ![n][b] = FALSE]
+    /\ wire' = [wire EXCEPT ![b][n] = <<>>, ![n][b] = <<>>]
+    /\ UNCHANGED <<loc, st, routes, members, now, merged>>
+(* the connection comes back: each side sends its complete state down the new connection (mesh: sendAllGossipDown) *)
+LinkUp(b, n) ==
+    /\ b # n /\ ~up[b][n]
+    /\ up' = [up EXCEPT ![b][n] = TRUE, ![n][b] = TRUE]
+    /\ live' = [live EXCEPT ![b][n] = TRUE, ![n][b] = TRUE]        \* the buckets of a new connection are empty
+    /\ UNCHANGED <<loc, st, routes, bc, gs, members, wire, now, merged>>
+(* b's router garbage-collects the unreachable peer p (Swarm.onPeerOffline): p leaves the member list and b stops
+   forwarding to it.  INTENDED: nothing else (the replicated entries of p stay; they are routed again when p is heard
+   from).  THE CODE (GcAsCode) means to write a remove for every live subscription of p, but the unsubscribe handler it
+   calls first rewrites the event's peer to b itself (Service.NotifyUnsubscribe: ev.Peer = s.ID()), so the remove lands on
+   the key <<b, connection id of p's client, ssid>>: p's entries stay live in the replica, and a connection of b that
+   happens to carry the same id has ITS subscription removed cluster-wide *)
+RECURSIVE Tombstone(_, _, _)
+Tombstone(state, ks, t) ==
+    IF ks = {} THEN state
+    ELSE LET k == CHOOSE x \in ks : TRUE IN Tombstone([state EXCEPT ![k].d = t], ks \ {k}, t + 1)
+PeerGC(b, p) ==
+    /\ b # p /\ ~up[b][p] /\ p \in members[b]
+    /\ members' = [members EXCEPT ![b] = @ \ {p}]
+    /\ routes' = [routes EXCEPT ![b] = { r \in @ : r[1] # p }]
+    /\ LET act == { k \in Keys : k[1] = p /\ IsAdded(st[b][k]) } IN
+       IF GcAsCode
+       THEN st' = [st EXCEPT ![b] = Tombstone(@, { <<b, k[2], k[3]>> : k \in act }, now)] /\ now' = now + Cardinality(act)
+       ELSE UNCHANGED <<st, now>>
+    /\ UNCHANGED <<loc, bc, gs, up, live, wire, merged>>
+
+GNext == \/ \E b, n \in Brokers : LinkDown(b, n) \/ LinkUp(b, n) \/ PeerGC(b, n)
+         \/ \E b \in Brokers, s \in Ssids : ClientSub(b, s) \/ ClientUnsub(b, s)
          \/ \E b \in Brokers : Periodic(b)
          \/ \E b, n \in Brokers : Pick(b, n) \/ Deliver(b, n)
 
 (* C05: once nothing is queued or in flight, every broker forwards a channel to exactly the brokers that have a live
    local subscriber for it *)
-Quiescent == \A b, n \in Brokers : bc[b][n] = Nothing /\ gs[b][n] = Nothing /\ ~live[b][n] /\ wire[b][n] = <<>>
+Quiescent == \A b, n \in Brokers : (b # n => up[b][n]) /\ bc[b][n] = Nothing /\ gs[b][n] = Nothing /\ ~live[b][n] /\ wire[b][n] = <<>>
 RoutingAtQuiescence ==
     Quiescent => \A b \in Brokers : routes[b] = { <<p, s>> \in Brokers \X Ssids : p # b /\ s \in loc[p] }
 (* a message published on broker b for ssid s: delivered to b's own client if subscribed, forwarded to exactly the
